@@ -23,10 +23,12 @@ EXTENDS DateTime, TLC, Json, IOUtils
 CONSTANTS StrictKind,   \* TRUE: error kinds and zone names must be the predicted ones
           Ulps          \* 0: the duration applied must be a rounding of the observed f64 seconds; 2: +- 2 ulp
 
-VARIABLES l, tr
-tvars == <<l, tr>>
-\* the trace is constant: states are identified by the position alone (VIEW), which keeps judging linear
-Pos == l
+\* The recorded trace is a constant-level definition: TLC evaluates it once.  (Holding it in a state variable
+\* makes every step linear in the trace length - each new state is normalised and fingerprinted as a whole.)
+tr == ndJsonDeserialize(IOEnv.TRACE)
+
+VARIABLES l       \* position of the next event to judge
+tvars == <<l>>
 
 Accept(e) ==
     CASE e.op \in {"add", "sub"} -> AcceptApply(e.t, e.d, e.fin, e.op, e.cls, e.err, e.out, StrictKind, Ulps)
@@ -43,19 +45,17 @@ Accept(e) ==
 WellFormed(e) == /\ IsInstant(e.t) /\ InRange(e.t)
                  /\ e.op \in {"add", "sub", "add_diff", "sub_diff", "add_sub", "sub_add"} => (IsDur(e.d) \/ ~e.fin)
 
-TraceInit == /\ l = 1
-             /\ tr = ndJsonDeserialize(IOEnv.TRACE)
+TraceInit == l = 1
 
 TraceNext == /\ l <= Len(tr)
              /\ IF WellFormed(tr[l]) /\ Accept(tr[l]) THEN TRUE
                 ELSE PrintT(<<"BAD", ToJson([line |-> l])>>)
              /\ l' = l + 1
-             /\ UNCHANGED tr
 
 TraceSpec == TraceInit /\ [][TraceNext]_tvars
 
 TraceAccepted ==
-    LET n == Len(ndJsonDeserialize(IOEnv.TRACE))
+    LET n == Len(tr)
         d == TLCGet("stats").diameter - 1
     IN IF d = n THEN TRUE
        ELSE /\ PrintT(<<"REJECTED", ToJson([matched |-> d, total |-> n])>>)
